@@ -53,6 +53,11 @@ LIFECYCLE_ENTRY = [
 ]
 
 
+def inline_local(e, env):
+    from engine.astutil import inline
+    return inline(e, env)
+
+
 def row_roots(site, env):
     roots = set()
     for k in common.ROW_KW:
@@ -119,7 +124,8 @@ def r1(ctx):
                 if roots and p[1] not in roots:
                     problems.append(f"{k} comes from `{p[1]}` but the rows come from {sorted(roots)}")
             elif p[0] == "fresh" and s.f.qname == "batchie.data.Screen.load_h5":
-                e = s.kw[k]
+                from engine.astutil import inline_calls
+                e = inline_calls(inline_local(s.kw[k], env), R, s.f.mod, scope=s.f.node)
                 if common.is_helper_call(ctx, s.f, e):
                     h, keys, may_none = common.helper_h5_keys(ctx, s.f, e)
                     W = common.h5_writes(ctx.fn("data.Screen.save_h5").node)
